@@ -205,7 +205,7 @@ theorem lookup_eq_histBin (edges : List K) (x : K) (hs : edges.Pairwise (· ≤ 
     | some v => exact ⟨v, rfl⟩
   unfold inRange at hv
   rw [hlo, hhi] at hv
-  simp only [Bool.not_eq_true', Bool.or_eq_false_iff, decide_eq_false_iff_not, not_lt] at hv
+  simp only [Bool.and_eq_true, decide_eq_true_eq] at hv
   obtain ⟨hlox, hxhi⟩ := hv
   have hlomem : lo ∈ edges := List.mem_of_mem_head? hlo
   have himem : hi ∈ edges := List.mem_of_mem_getLast? hhi
